@@ -254,6 +254,13 @@ func (s *scn) locate(files map[string]string, calls []*call, detail func() map[s
 			cl.present, cl.file, cl.line = true, name, rc.line
 			s.c.Count("lines_matched_whole", 1)
 			s.c.SetAdd("entry_points_seen_in_file", epName[cl.EP])
+			if s.stdout {
+				s.c.Count("lines_matched_whole_with_stdout_mirror_on", 1)
+				s.c.SetAdd("entry_points_seen_in_file_with_stdout_mirror_on", epName[cl.EP])
+				if cl.EP == epPrintln || cl.EP == epPrintf {
+					s.c.Count("id_entry_point_lines_in_file_with_stdout_mirror_on", 1)
+				}
+			}
 		}
 	}
 	return out
